@@ -430,7 +430,9 @@ fn exec_redirected(t: &mut Tape, st: &mut Stats) -> Result<(), String> {
         }
         3 => {
             add(&mut nf, "host", "extra.test")?;
-            host_orig
+            // two Host fields only when the inherited one is still there: an explicit Host of the original request does not
+            // travel to another host (C14), so after a cross-host redirect the caller's is the only one
+            host_orig && !cross_host
         }
         4 => {
             add(&mut nf, "x-a", "b")?;
